@@ -142,7 +142,7 @@ mut('c17-file-drops-newline', 'C17', G, "        self.output_file.write('\\n')",
 mut('c17-file-encoding-errors', 'C17', G, "        self.output_file.write(guess)", "        self.output_file.write(guess.strip())")
 ER = 'edit_rules.py'
 mut('c20-year-as-one', 'C20', ER, "                total_length += 4", "                total_length += 1")
-mut('c20-min-exclusive', 'C20', ER, "        elif total_length >= min_length and total_length <= max_length:", "        elif total_length > min_length and total_length <= max_length:")
+mut('c20-min-exclusive', 'C20', ER, "        elif total_length >= min_length and total_length + extra_length <= max_length:", "        elif total_length > min_length and total_length + extra_length <= max_length:")
 mut('c20-terminal-whole-label', 'C20', ER, "            if x[0] not in terminal_set:", "            if x not in terminal_set and x[0] not in terminal_set[:1]:")
 mut('c20-copy-swapped', 'C20', ER, "        config['rule'] = config['copy']", "        pass")
 mut('c20-renormalise', 'C20', ER, "            return_grammar += line\n            return_grammar += '\\n'", "            return_grammar += line.split('\\t')[0] + '\\t' + str(float(prob))\n            return_grammar += '\\n'", benign=True, desc='str(float(text)) round-trips repr output: bytes unchanged')
